@@ -144,7 +144,13 @@ func execC29Seq(c *simkit.Ctx) bool {
 		}
 		time.Sleep(time.Microsecond) // bubble clock: distinct LRU timestamps per step
 		c.SimNanos += 1000
-		// oracle through the public API only
+		// oracle through the public API only; lookups refresh LRU stamps, so each one gets its own instant
+		byNonce := func(n uint64, sh uint32) ([][]byte, error) {
+			time.Sleep(time.Microsecond)
+			c.SimNanos += 1000
+			_, hashes, err := pool.GetHeadersByNonceAndShardId(n, sh)
+			return hashes, err
+		}
 		found := map[uint32]int{}
 		noncesSeen := map[uint32]map[uint64]bool{}
 		hs := make([]int64, 0, len(everAdded))
@@ -153,12 +159,14 @@ func execC29Seq(c *simkit.Ctx) bool {
 		}
 		sort.Slice(hs, func(a, b int) bool { return hs[a] < hs[b] })
 		for _, h := range hs {
+			time.Sleep(time.Microsecond) // the lookup refreshes the LRU stamp: keep stamps distinct
+			c.SimNanos += 1000
 			hdr, err := pool.GetHeaderByHash(hashName(h))
 			if err != nil {
 				// by neither: no (shard, nonce) list may contain the hash
 				for sh := uint32(0); sh < 3; sh++ {
 					for n := uint64(0); n < 7; n++ {
-						_, hashes, e2 := pool.GetHeadersByNonceAndShardId(n, sh)
+						hashes, e2 := byNonce(n, sh)
 						if e2 != nil {
 							continue
 						}
@@ -177,7 +185,7 @@ func execC29Seq(c *simkit.Ctx) bool {
 				noncesSeen[sh] = map[uint64]bool{}
 			}
 			noncesSeen[sh][n] = true
-			_, hashes, e2 := pool.GetHeadersByNonceAndShardId(n, sh)
+			hashes, e2 := byNonce(n, sh)
 			in := false
 			if e2 == nil {
 				for _, x := range hashes {
